@@ -118,15 +118,23 @@ mut("c05_linear_sum_b_dropped", PD, '''        if b is not None:
             mu_sum += b''', '''        if b is not None and b.shape[0] == 1:
             mu_sum += b''', ["C05"])
 mut("c05_linear_sum_einsum", PD, '"abc,acd,aed->abe", W, self.Sigma, W', '"abc,adc,aed->abe", W, self.Sigma, W', [])
-mut("c06_M_sign", PD, '''        dim_x = jnp.setxor1d(dim_xy, dim_y)
-        # dim_x = dim_xy[jnp.logical_not(jnp.isin(dim_xy, dim_y))]
-        Lambda_x = self.Lambda[:, dim_x][:, :, dim_x]
+mut("c06_M_sign", PD, '''        Lambda_x = self.Lambda[:, dim_x][:, :, dim_x]
         Sigma_x, ln_det_Lambda_x = invert_matrix(Lambda_x)
-        M_x = -jnp.einsum(''', '''        dim_x = jnp.setxor1d(dim_xy, dim_y)
-        # dim_x = dim_xy[jnp.logical_not(jnp.isin(dim_xy, dim_y))]
-        Lambda_x = self.Lambda[:, dim_x][:, :, dim_x]
+        M_x = -jnp.einsum("abc,acd->abd", Sigma_x, self.Lambda[:, dim_x][:, :, dim_y])
+        b_x = self.mu[:, dim_x] - jnp.einsum("abc,ac->ab", M_x, self.mu[:, dim_y])
+        return conditional.ConditionalGaussianPDF(
+            M=M_x, b=b_x, Sigma=Sigma_x, Lambda=Lambda_x, ln_det_Sigma=-ln_det_Lambda_x
+        )
+
+    def condition_on_explicit''', '''        Lambda_x = self.Lambda[:, dim_x][:, :, dim_x]
         Sigma_x, ln_det_Lambda_x = invert_matrix(Lambda_x)
-        M_x = jnp.einsum(''', ["C06"])
+        M_x = jnp.einsum("abc,acd->abd", Sigma_x, self.Lambda[:, dim_x][:, :, dim_y])
+        b_x = self.mu[:, dim_x] - jnp.einsum("abc,ac->ab", M_x, self.mu[:, dim_y])
+        return conditional.ConditionalGaussianPDF(
+            M=M_x, b=b_x, Sigma=Sigma_x, Lambda=Lambda_x, ln_det_Sigma=-ln_det_Lambda_x
+        )
+
+    def condition_on_explicit''', ["C06"])
 mut("c06_b_unpermuted", PD, '''        b_x = self.mu[:, dim_x] - jnp.einsum("abc,ac->ab", M_x, self.mu[:, dim_y])
         return conditional.ConditionalGaussianPDF(
             M=M_x, b=b_x, Sigma=Sigma_x, Lambda=Lambda_x, ln_det_Sigma=-ln_det_Lambda_x
